@@ -33,6 +33,20 @@ ILL_OPS = {
                     {"variant": "Server", "arch": "ppc64le", "path": "GPL", "size": 1, "checksums": {"md5": "x"}},
                     {"variant": "Client", "arch": "x86_64", "path": "GPL", "size": 1, "checksums": {}}],
 }
+# audit A8: falsy values of every type for every parameter (corrupting stream, REAL side only: outside the model's argument types)
+FALSY = ["None", "False", "0", "0.0", "''", "[]", "{}", "()", "set()"]
+FALSY_PY = {"None": None, "False": False, "0": 0, "0.0": 0.0, "''": "", "[]": [], "{}": {}, "()": (), "set()": set()}
+PARAMS = {"rpms": ["variant", "arch", "nevra", "path", "sigkey", "category", "srpm"],
+          "modules": ["variant", "arch", "uid", "koji_tag", "modulemd_path", "category", "rpms"],
+          "extra_files": ["variant", "arch", "path", "size", "checksums"]}
+# audit A5 (real side only: str.lower() is ASCII-only in the model): non-ASCII signing keys must be stored lower-cased
+SIGKEYS_UNICODE = ["\u00c4B12", "\u0130D", "\u03a3\u03a3", "\uff21\uff22"]
+# audit A10/B4: a table ASSIGNED as a fresh container (not filled through add), with buckets that exist but are empty
+WELL = {
+    "rpms": [{"Server": {}}, {"Server": {"x86_64": {}}}, {"Server": {"x86_64": {"foo-0:1.0-1.src": {}}}}, {"Server": {}, "Client": {"s390x": {}}}],
+    "modules": [{"Server": {}}, {"Server": {"x86_64": {}}}, {"Server": {"x86_64": {"httpd:2.4": {}}}}, {"Server": {}, "Client": {"s390x": {}}}],
+    "extra_files": [{"Server": {}}, {"Server": {"x86_64": []}}, {"Server": {"x86_64": [], "s390x": []}, "Client": {}}],
+}
 BASES = ["Server/x86_64/os", "Server/x86_64/os/", "Server/x86_64/os//", "Server/x86_64/o", "Server/x86", "Client", "", "/",
          "a/b", "a/b/", "a", "a/", "a/b/c", "Server/x86_64/os/GPL", "docs", "doc", "a/bc", "Server/x86_64/os2",
          "os", "os/", "a/a", "a/a/", "a/a//", "x/os", "a/b/a", "os/repos"]
@@ -43,7 +57,8 @@ REPEAT = [("Server/x86_64/os", "Server/x86_64/os/docs/Server/x86_64/os/GPL"), ("
 
 
 def strip_ops(ops):
-    return [dict((k, v) for k, v in op.items() if k not in ("expect", "why")) for op in ops]
+    """what goes to the model: the call without the generator's annotations; floats in the protocol encoding"""
+    return [dict((k, (mc.enc(v) if k == "size" else v)) for k, v in op.items() if k not in ("expect", "why")) for op in ops]
 
 
 class C12(Prop):
@@ -72,7 +87,8 @@ class C12(Prop):
         return out
 
     def _cases(self, rng, tier, budget):
-        f_rpms.reset_budget()
+        f_rpms.reset_budget(tier)
+        mc.reset_round_robin()
         kinds = ["rpms", "modules", "extra_files"]
         n_tree = max(30, budget // 8)
         n_rel = max(60, budget // 5)
@@ -109,6 +125,15 @@ class C12(Prop):
             else:
                 root = mc.mutate_str(rng, rng.choice(BASES), alphabet="/ab.")
             yield {"op": "relative_to", "args": {"path": path, "root": root}}
+        base_ops = {"rpms": f_rpms.valid_op(rng, f_rpms.gen_source(rng), "Server", "x86_64", 0),
+                    "modules": f_modules.valid_op(rng, ["httpd", "2.4", "1", "abc"], "Server", "x86_64", 0),
+                    "extra_files": f_extra.valid_op(rng, "Server", "x86_64")}
+        for k in kinds:
+            for field in PARAMS[k]:
+                for tag in FALSY:                                   # complete: every parameter x every falsy value
+                    yield {"op": "falsy", "args": {"kind": k, "base": base_ops[k], "field": field, "value": {"$py": tag}}}
+        for sk in SIGKEYS_UNICODE:
+            yield {"op": "falsy", "args": {"kind": "rpms", "base": base_ops["rpms"], "field": "sigkey", "value": sk}}
         # the two key parsers on their own: valid texts, the unparsable pools, and random edits of both
         for i in range(max(200, budget // 4)):
             src = f_rpms.gen_source(rng)
@@ -130,9 +155,18 @@ class C12(Prop):
         for i in range(budget):
             k = kinds[i % 3]
             ops = FORMATS[k].gen_ops(rng, tier)
+            args = {"kind": k, "ops": ops}
+            if i % 10 == 9:
+                args["init"] = WELL[k][(i // 10) % len(WELL[k])]
+                first = {"rpms": lambda: f_rpms.valid_op(rng, f_rpms.gen_source(rng), "Server", "x86_64", i),
+                         "modules": lambda: f_modules.valid_op(rng, rng.choice([["httpd", "2.4"], f_modules.gen_module(rng)]), "Server", "x86_64", i),
+                         "extra_files": lambda: f_extra.valid_op(rng, "Server", "x86_64")}[k]()
+                args["ops"] = ops = [first] + ops
             if rng.random() < 0.6:
-                ops = mc.interleave_readonly(rng, ops, k, BASES)
-            yield {"op": "trace", "args": {"kind": k, "ops": ops}}
+                args["ops"] = mc.interleave_readonly(rng, ops, k, BASES)
+            if i % 3 == 1:
+                args["twin"] = True                                  # audit B1: a second object driven interleaved
+            yield {"op": "trace", "args": args}
 
     # ---- real side
     def real(self, case):
@@ -141,7 +175,33 @@ class C12(Prop):
         if case["op"] == "trace":
             f = FORMATS[a["kind"]]
             obj = f.new()
-            return {"steps": mc.run_trace(obj, f.mapping, f.add, a["ops"])}
+            twin = f.new() if a.get("twin") else None
+            if "init" in a:
+                for o in (obj, twin):
+                    if o is not None:
+                        setattr(o, a["kind"], copy.deepcopy(a["init"]))
+            return {"steps": mc.run_trace(obj, f.mapping, f.add, a["ops"], twin=twin)}
+        if case["op"] == "falsy":
+            f = FORMATS[a["kind"]]
+            obj = f.new()
+            f.add(obj, a["base"])                                   # something to lose
+            before = mc.enc(f.mapping(obj))
+            v = a["value"]
+            v = copy.deepcopy(FALSY_PY[v["$py"]]) if isinstance(v, dict) else v
+            op = dict(a["base"])
+            op[a["field"]] = v
+            try:
+                if a["kind"] == "rpms":
+                    obj.add(op["variant"], op["arch"], op["nevra"], op["path"], op["sigkey"], op["category"], op["srpm"])
+                elif a["kind"] == "modules":
+                    obj.add(op["variant"], op["arch"], op["uid"], op["koji_tag"], op["modulemd_path"], op["category"],
+                            v if a["field"] == "rpms" else f_modules.seq_arg(op["rpms"]))
+                else:
+                    obj.add(op["variant"], op["arch"], op["path"], op["size"], op["checksums"])
+                out = {"ok": None}
+            except Exception as e:  # noqa
+                out = {"err": type(e).__name__}
+            return {"out": out, "before": before, "after": mc.enc(f.mapping(obj))}
         if case["op"] == "check_nevra":
             return checklib.guarded(lambda: pm.rpms.Rpms()._check_nevra(a["s"])[0])
         if case["op"] == "check_uid":
@@ -173,7 +233,12 @@ class C12(Prop):
     def model_requests(self, case):
         a = case["args"]
         if case["op"] == "trace":
-            return [{"op": "bld_trace", "args": {"kind": a["kind"], "ops": strip_ops(a["ops"])}}]
+            req = {"kind": a["kind"], "ops": strip_ops(a["ops"])}
+            if "init" in a:
+                req["init"] = a["init"]
+            return [{"op": "bld_trace", "args": req}]
+        if case["op"] == "falsy":
+            return []
         if case["op"] in ("check_nevra", "check_uid"):
             return [{"op": "bld_" + case["op"], "args": dict((k, v) for k, v in a.items() if k != "expect")}]
         if case["op"] == "trace_init":
@@ -194,6 +259,8 @@ class C12(Prop):
     def compare(self, case, real_out, model_out):
         if case["op"] == "dump_for_tree":
             real_out = dict((k, v) for k, v in real_out.items() if k not in ("stored", "accepted"))
+        if case["op"] == "trace":
+            real_out = {"steps": [dict((k, v) for k, v in st.items() if k != "twin_differs") for st in real_out["steps"]]}
         if json.dumps(real_out, sort_keys=True) != json.dumps(model_out, sort_keys=True):
             if case["op"] in ("trace", "trace_init"):
                 for i, (r, m) in enumerate(zip(real_out["steps"], model_out["steps"])):
@@ -207,9 +274,17 @@ class C12(Prop):
         a = case["args"]
         if case["op"] == "trace":
             f = FORMATS[a["kind"]]
-            before = {}
+            before = copy.deepcopy(a.get("init", {}))
             filed = {}          # (variant, arch) -> records the accepted ExtraFiles.add calls put there, in order
+            if a["kind"] == "extra_files":
+                for v_, d_ in before.items():
+                    for a_, l_ in d_.items():
+                        filed[(v_, a_)] = list(l_)
             for i, (op, st) in enumerate(zip(a["ops"], real_out["steps"])):
+                if "twin_differs" in st:
+                    return {"kind": "twin-differs", "required": "two objects given the same calls hold the same mapping",
+                            "observed": {"step": i, "call": dict((k, v) for k, v in op.items() if k != "expect"), "kind": "twin-differs",
+                                         "detail": {"this": st["state"], "twin": st["twin_differs"]}}}
                 if op.get("call", "add") in mc.READONLY:
                     bad = self.readonly_step(before, st["state"], op, st["out"], filed)
                 else:
@@ -225,6 +300,21 @@ class C12(Prop):
                     return {"kind": "not-json-closed", "observed": {"step": i, "state": st["state"]},
                             "required": "the mapping holds only dict/list/str/int/None values with string keys"}
                 before = st["state"]
+            return None
+        if case["op"] == "falsy":
+            out = real_out["out"]
+            if "err" in out:
+                if out["err"] not in ("ValueError", "TypeError"):
+                    return {"kind": "wrong-exception", "observed": {"err": out["err"], "field": a["field"], "value": a["value"], "format": a["kind"]},
+                            "required": "a refused call raises ValueError or TypeError"}
+                if real_out["after"] != real_out["before"]:
+                    return {"kind": "refusal-changed-state", "observed": {"before": real_out["before"], "after": real_out["after"]},
+                            "required": "a refused call changes nothing"}
+            elif a["field"] == "sigkey" and isinstance(a["value"], str):
+                want = a["value"].lower()
+                got = sorted(set(r.get("sigkey") for v_ in real_out["after"].values() for a_ in v_.values() for s_ in a_.values() for r in s_.values()))
+                if want not in got:
+                    return {"kind": "frame-or-content", "observed": got, "required": "signing key stored lower-cased: %r" % want}
             return None
         if case["op"] in ("check_nevra", "check_uid"):
             if "err" in real_out and real_out["err"] not in ("ValueError", "TypeError"):
@@ -266,7 +356,7 @@ class C12(Prop):
                     "required": "%s leaves the manifest unchanged" % call}
         if call == "dump_for_tree":
             items = filed.get((op["variant"], op["arch"]))
-            if not items:
+            if items is None:
                 if out.get("err") != "KeyError":
                     return {"kind": "tree-missing", "observed": out.get("err", "ok"), "required": "KeyError for a variant/arch without files"}
                 return None
@@ -318,6 +408,11 @@ class C12(Prop):
                     d["accepted"] += 1
                 else:
                     d["refused"][st["out"]["err"]] = d["refused"].get(st["out"]["err"], 0) + 1
+        elif case["op"] == "falsy":
+            d = dist.setdefault("falsy", {"n": 0, "outcomes": {}})
+            d["n"] += 1
+            o = real_out["out"].get("err", "accepted")
+            d["outcomes"][o] = d["outcomes"].get(o, 0) + 1
         elif case["op"] in ("check_nevra", "check_uid"):
             d = dist.setdefault(case["op"], {"n": 0, "ok": 0})
             d["n"] += 1
